@@ -500,3 +500,5 @@ V("tensor_product: result typed with one covariant index too few", "C19", BASE, 
 V("expand_dims: index sets shifted for positions after the new axis only", "C19", BASE, "        result._covariant_indices = {i + 1 if i >= axis else i for i in self._covariant_indices}", "        result._covariant_indices = {i + 1 if i > axis else i for i in self._covariant_indices}", "E15", "expand_dims")
 V("__getitem__: covariant and contravariant sets exchanged when the mapping is applied", "C19", BASE, "            if old_axis in self._covariant_indices:\n                covariant_indices.append(new_axis)\n            elif old_axis in self._contravariant_indices:\n                contravariant_indices.append(new_axis)",
   "            if old_axis in self._covariant_indices:\n                contravariant_indices.append(new_axis)\n            elif old_axis in self._contravariant_indices:\n                covariant_indices.append(new_axis)", "E15", "Tensor.__getitem__")
+V("_with_array passes absolute index positions as relative ones (E15 view)", "C19", BASE, "        covariant = [i - n for i in self._covariant_indices]", "        covariant = list(self._covariant_indices)", "E15", "Tensor.__add__")
+V("_with_array takes the tensor rank of the operand instead of the result's", "C19", BASE, "        return Tensor(array, covariant=covariant, tensor_rank=self.rank - n, copy=False)", "        return Tensor(array, covariant=covariant, tensor_rank=array.ndim - n, copy=False)", "E15", "Tensor.__add__")
